@@ -1,7 +1,8 @@
 #!/bin/sh
 # tools/import_seed.sh <ID> <A|B> <props...>: store a sub-agent's seeded change from /tmp/seed_<ID>/_out and check it (no /repo edit)
 id=$1; x=$2; shift 2
-d="$(dirname "$0")/../seeded/${id}_${x}"; mkdir -p "$d"
+y=${DEST:-$x}      # DEST=C stores the sub-agent's change A as seeded/<ID>_C (a later round)
+d="$(dirname "$0")/../seeded/${id}_${y}"; mkdir -p "$d"
 cp /tmp/seed_$id/_out/patch$x.diff "$d/patch.diff"; cp /tmp/seed_$id/_out/demo$x.py "$d/demo.py"
 python3 - "$d" "$id" "$x" "$@" <<'PY'
 import json,sys,os
@@ -12,4 +13,4 @@ m["breaks_property"]=id_
 m["our_checks"]={p:{} for p in props}
 json.dump(m,open(os.path.join(d,"meta.json"),"w"),indent=1)
 PY
-"$(dirname "$0")/recheck_seeds.py" "${id}_${x}"
+"$(dirname "$0")/recheck_seeds.py" "${id}_${y}"
